@@ -98,7 +98,7 @@ def run(tier):
                 t.append(rng.choice(["a", "Ab", "aB", "AB", "b", "B"]) if j == fpos else rng.choice(["x", "y", None, MISSING, "x|"]))
             tuples.append(tuple(t))
         scen.append(mk(cols, tuples, "tumbling", 0, (fpos, rng.choice(["upper", "lower"]), rng.random() < 0.5), rng))
-    seqfam.run_scenarios(res, scen, "TraceBatch", tag="groupby", relayout_p=0.3, retype_p=0.3)
+    seqfam.run_scenarios(res, scen, "TraceBatch", tag="groupby", relayout_p=0.3, retype_p=0.3, rename_p=0.3)
     res.cov["exhaustive"] = False
     res.cov["distinct_nontrivial"] = len({json.dumps(s["rows"], sort_keys=True) + s["sql"] for s in scen})
     res.cov["rule"] = ("all batches of <= 3 rows over three 5-value alphabets for one grouping column (exhaustive) plus seeded batches over 0-3 grouping columns "
